@@ -92,7 +92,8 @@ Ltac rd_side := repeat split; rd_nz1.
 Ltac rd_arg :=
   first
   [ reflexivity
-  | solve [ timeout 10 ring ]
+  | solve [ timeout 10 (unfold Rdiv; ring) ]
+  | solve [ timeout 10 (rd_norm; ring) ]
   | solve [ timeout 20 (field; rd_side) ] ].
 
 Ltac rd_replace a b tac :=
@@ -160,7 +161,7 @@ Ltac rd_eq :=
   | (apply f_equal; first [ rd_arg | rd_list ])
   | rd_arg ].
 
-Ltac rd_ring_arg := first [ reflexivity | solve [ timeout 10 ring ] ].
+Ltac rd_ring_arg := first [ reflexivity | solve [ timeout 10 (unfold Rdiv; ring) ] ].
 
 Ltac rd_cong_inv :=
   repeat match goal with
@@ -186,7 +187,7 @@ Ltac rd_last :=
 
 Ltac rd_solve_core :=
   first [ reflexivity
-        | solve [ timeout 20 ring ]
+        | solve [ timeout 20 (unfold Rdiv; ring) ]
         | solve [ rd_norm; first [ reflexivity | solve [ timeout 20 ring ] | solve [ rd_cong_inv; timeout 20 ring ] ] ]
         | solve [ timeout 30 (field; rd_side) ]
         | solve [ rd_norm; rd_cong; rd_final ]
